@@ -25,7 +25,14 @@ func hostVariants(s sim.Source, host string, other string) (string, string) {
 		return sim.Pick(s, "nohost", []string{"", "a.b", "zz", "127.0.0.1", "[::1]:80", ":8080", ".", ".:443"}), "none"
 	}
 	labels := strings.Split(host, ".")
-	switch s.Intn("hostvar", 15) {
+	switch s.Intn("hostvar", 18) {
+	case 17:
+		// '%' is an ordinary Host byte (percent-encoded reg-name): text after it belongs to the Host, port or not
+		return host + sim.Pick(s, "percent", []string{"%25evil.net:8080", "%evil:443", ".%25x:80", "%25evil.net", "%eth0"}), "percent-suffix"
+	case 15, 16:
+		// text after a colon that is no port (a port is digits): the Host is not "the hostname plus a port", and nothing
+		// of it is removed
+		return host + sim.Pick(s, "notaport", []string{":80.evil.org", ":evil.org", ":http", ":8o", ":80..", ":80.x"}), "colon-without-port"
 	case 0, 1:
 		return host, "exact"
 	case 2:
@@ -33,7 +40,7 @@ func hostVariants(s sim.Source, host string, other string) (string, string) {
 	case 3:
 		return host + ".", "dot"
 	case 4:
-		return host + ".:8080", "dot+port"
+		return host + sim.Pick(s, "dotport", []string{".:8080", ".:8080", ":8080."}), "dot+port"
 	case 5:
 		return "x." + host, "extra-label-left"
 	case 6:
